@@ -46,6 +46,17 @@ TermClauses(i) ==
     valid   |-> e.ok = 1 => (InRangeJ(e.tj) /\ e.ts >= 0 /\ e.ts < 86400)
   ]
 
+(* every term of every year, label and instant only: one strictly increasing sequence, 14.6 - 15.8 days apart *)
+LightClauses(i) ==
+  LET e == Rec[i]
+      hasp == e.s = 0 /\ i > 1 /\ Rec[i - 1].k = "tg" /\ Rec[i - 1].tj > 0 /\ e.tj > 0
+      p == Rec[i - 1]
+  IN
+  [ instant |-> e.tj > 0 /\ e.ts >= 0 /\ e.ts < 86400,
+    order   |-> hasp => (NextTermLabel(p, e) => InstLess(<<p.tj, p.ts>>, <<e.tj, e.ts>>)),
+    gap     |-> hasp => (NextTermLabel(p, e) => NextTermGap(p, e))
+  ]
+
 DayClauses(i) ==
   LET e == Rec[i]
       hasp == e.s = 0 /\ i > 1 /\ Rec[i - 1].k = "d" /\ Rec[i - 1].ok = 1 /\ e.ok = 1 /\ e.j = Rec[i - 1].j + 1
@@ -75,6 +86,7 @@ InstantClauses(i) ==
 Clauses(i) ==
   CASE Rec[i].k = "t"  -> TermClauses(i)
     [] Rec[i].k = "d"  -> DayClauses(i)
+    [] Rec[i].k = "tg" -> LightClauses(i)
     [] Rec[i].k = "ti" -> InstantClauses(i)
     [] OTHER           -> [walk |-> FALSE]
 
@@ -84,6 +96,7 @@ Key(i) == LET e == Rec[i] IN
   CASE e.k = "t"  -> [k |-> "t", y |-> e.y, i |-> e.i]
     [] e.k = "d"  -> [k |-> "d", y |-> e.y, m |-> e.m, d |-> e.d, n |-> e.y * 10000 + e.m * 100 + e.d]
     [] e.k = "ti" -> [k |-> "ti", y |-> e.y, i |-> e.i, off |-> e.off]
+    [] e.k = "tg" -> [k |-> "tg", y |-> e.y, i |-> e.i]
     [] OTHER      -> [k |-> e.k, at |-> e.at]
 
 (* non-trivial: year carries, term days and the day before, instants at / before the boundary *)
@@ -91,6 +104,7 @@ Nontrivial(i) == LET e == Rec[i] IN
   CASE e.k = "t"  -> e.i \in {0, 23}
     [] e.k = "d"  -> e.td = 0 \/ e.td >= 14
     [] e.k = "ti" -> e.off <= 1
+    [] e.k = "tg" -> e.i \in {0, 23}
     [] OTHER      -> TRUE
 
 INSTANCE TraceRun WITH Prop <- "C06", NLines <- NRec
